@@ -35,6 +35,8 @@ KNOWN_KINDS = {
     'extract-no-names': 'extract() without names raises IndexError',
     'result-label-blocks-reload': 'result(x, label) relabels a live elementary leaf; an earlier archive of x cannot be read',
     'xml-empty-label': 'XML stores label "" as no label; the same-session reload raises RuntimeError (uid in use)',
+    'redeclared-correlation-order': 'two documents record DIFFERENT coefficients for the same pair of leaves (r re-declared between '
+                                    'the writes): the document read first wins, covariances depend on the load order',
 }
 # repaired in /repo (fix: commits); the oracle reports them as failures again if they come back:
 FIXED_KINDS = ('add-partial', 'add-undeclared-complex-residue', 'write-after-failed-add', 'load-overwrites-correlation',
@@ -96,6 +98,8 @@ def check_history(k0, ops, fresh_ids=True):
         n_before = len(a) if a is not None else 0
         residue = has_residue(a) if a is not None else False
         const = has_constant(s, a) if a is not None else False
+        names_before = ((set(a._tagged_real), set(a._tagged_complex), set(a._untagged_real))
+                        if (k == 'add' and a is not None) else None)
         old_doc = None
         if k == 'write' and state == 'written':
             try: old_doc = {'pickle': s.pr.dumps, 'json': s.pr.dumps_json, 'xml': s.pr.dumps_xml}[o[2]](a)
@@ -115,6 +119,18 @@ def check_history(k0, ops, fresh_ids=True):
                 fail('write-after-failed-add' if not hasattr(a, '_uid_to_intermediate') else 'lifecycle-add-wrong-exception', i, o, outcome=outcome)
             elif outcome == 'ok' and has_constant(s, a) and not const:
                 fail('constant-accepted', i, o)
+            if state == 'open' and outcome == 'ok':
+                # the tag rules, restated: no duplicate tag; a real's tag must not be a component tag in use; a complex
+                # number's '<tag>_re' / '<tag>_im' must not be in use as the tag of a real or as a component tag
+                treal, tcplx, untag = [set(x) for x in names_before]
+                for tag, j in o[2]:
+                    x = s.objs[j]; clash = tag in treal or tag in tcplx
+                    if isinstance(x, s.lib.UncertainReal):
+                        clash = clash or tag in untag; treal.add(tag)
+                    elif isinstance(x, s.lib.UncertainComplex):
+                        clash = clash or any(t in treal or t in untag for t in (tag + '_re', tag + '_im'))
+                        tcplx.add(tag); untag.update((tag + '_re', tag + '_im'))
+                    if clash: fail('lifecycle-add-clashing-tag-accepted', i, o, tag=tag); break
         if k == 'extract' and a is not None:
             if not o[2]:
                 if outcome != 'RuntimeError' and state != 'thawed': fail('extract-no-names', i, o, outcome=outcome)
@@ -193,47 +209,109 @@ def classify_read_refusals(fails, ops):
         out.append(f)
     return out
 
-def order_check(rng, k0):
-    """two archives written at different times sharing influence quantities, read back in fresh
-    sessions in both orders / twice: same restored reports and same covariances"""
-    from GTC import core, persistence as pr, reporting
+def _close(a, b):
+    if isinstance(a, float) and isinstance(b, float):
+        if math.isnan(a) or math.isnan(b): return math.isnan(a) and math.isnan(b)
+        if math.isinf(a) or math.isinf(b): return a == b
+        return abs(a - b) <= 1e-11 * max(1.0, abs(a), abs(b))
+    if isinstance(a, tuple) and isinstance(b, tuple) and len(a) == len(b): return all(_close(x, y) for x, y in zip(a, b))
+    return a == b
+
+def order_check(case_seed):
+    """Several archives written at DIFFERENT TIMES that share dependent influence quantities, with correlations
+    declared between the writes, are read back (a) in fresh sessions in every order and with one document twice,
+    (b) in the writing session with the shared leaves alive.  The restored numbers must report the same x, u, df,
+    label, uid and the same covariances among ALL restored numbers of all archives, whatever the order; in (b) also
+    the same covariances as the original numbers.  Returns None or a failing description (replay: the case_seed)."""
+    from GTC import core, persistence as pr
+    import itertools
     warnings.simplefilter('ignore')
+    rng = random.Random(case_seed)
+    k0 = 500 + case_seed % 1000
     new_context(k0)
+    script = []
     n = rng.randint(3, 5)
-    xs = [core.ureal(float(i + 1), 0.5 + i / 8.0, independent=False, label='x%d' % i) for i in range(n)]
-    pairs = [(i, j) for i in range(n) for j in range(i + 1, n)]
-    rng.shuffle(pairs)
-    for (i, j) in pairs[:2]: core.set_correlation(rng.choice([0.25, 0.5, -0.5]), xs[i], xs[j])
-    y1 = core.result(xs[0] * xs[1] + xs[2], label='y1')
-    a = pr.Archive(); a.add(x0=xs[0], x1=xs[1], y1=y1); da = pr.dumps_json(a)
-    later = rng.random() < 0.5
-    if later and len(pairs) > 2: core.set_correlation(0.25, xs[pairs[2][0]], xs[pairs[2][1]])
-    y2 = core.result(xs[1] - xs[2] * xs[-1], label='y2')
-    b = pr.Archive(); b.add(x1=xs[1], xl=xs[-1], y2=y2); db = pr.dumps_xml(b)
-    def load(order, k):
-        new_context(k)
-        got = {}
-        for name, d in order:
-            ar = pr.loads_json(d) if name == 'A' else pr.loads_xml(d)
-            for t in ar.keys(): got[(name, t)] = ar[t]
+    xs = [core.ureal(float(i + 1), 0.5 + i / 8.0, independent=False, label=rng.choice([None, 'x%d' % i])) for i in range(n)]
+    script.append('x0..x%d = ureal(i+1, 0.5+i/8, independent=False)' % (n - 1))
+    DUMP = {'json': pr.dumps_json, 'xml': pr.dumps_xml, 'pickle': pr.dumps}
+    LOAD = {'json': pr.loads_json, 'xml': pr.loads_xml, 'pickle': pr.loads}
+    docs = []; originals = {}; current = {}; records = []
+    same_time = rng.random() < 0.3          # all archives written at one time: nothing declared between the writes
+    for t in range(rng.randint(2, 3)):
+        for _ in range(rng.randint(0 if t == 0 else 1, 2) if not (same_time and t > 0) else 0):
+            i, j = rng.sample(range(n), 2); r = rng.choice([0.25, 0.5, -0.5, -0.25])
+            # a pair may be RE-DECLARED with another value between two writes: the archives then contradict each
+            # other (known finding C08-redeclared-correlation-order); which pairs are concerned is computed below
+            # from this writer history, never from the outcome
+            current[frozenset((i, j))] = r
+            core.set_correlation(r, xs[i], xs[j]); script.append('set_correlation(%r, x%d, x%d)' % (r, i, j))
+        members = rng.sample(range(n), rng.randint(1, 3))
+        i, j, k = (rng.randrange(n) for _ in range(3))
+        y = core.result(xs[i] * xs[j] + xs[k], label='y%d' % t)
+        ar = pr.Archive(); kw = {'x%d' % m: xs[m] for m in members}; kw['y%d' % t] = y
+        ar.add(**kw)
+        fmt = rng.choice(['json', 'json', 'xml', 'pickle'])
+        docs.append((fmt, DUMP[fmt](ar)))
+        for tag, v in kw.items(): originals[(t, tag)] = v
+        held = set(members) | {i, j, k}                     # the leaves this document holds (each with its whole record)
+        records.append({pr_: r_ for pr_, r_ in current.items() if pr_ & held})
+        script.append('archive %d (%s) <- %s, y%d = result(x%d*x%d + x%d); written' % (t, fmt, sorted('x%d' % m for m in members), t, i, j, k))
+    def observe(got):
         keys = sorted(got)
         rep = {kk: (got[kk].x, got[kk].u, got[kk].df, got[kk].label, got[kk].uid) for kk in keys}
-        cov = {(p, q): reporting.get_covariance(got[p], got[q]) if hasattr(reporting, 'get_covariance') else core.get_covariance(got[p], got[q])
-               for p in keys for q in keys}
+        cov = {(p, q): core.get_covariance(got[p], got[q]) for p in keys for q in keys}
         return rep, cov
+    def load(order, k):
+        if k is not None: new_context(k)
+        got = {}
+        for d in order:
+            ar = LOAD[docs[d][0]](docs[d][1])
+            for tag in ar.keys(): got[(d, tag)] = ar[tag]
+        return observe(got)
+    def differ(r1, r2):
+        for part, (a, b) in zip(('report', 'covariance'), zip(r1, r2)):
+            for kk in a:
+                if not _close(a[kk], b.get(kk)): return {'what': part, 'of': [list(x) if isinstance(x, tuple) else x for x in kk] if part == 'covariance' else list(kk),
+                                                      'first_order': repr(a[kk]), 'other_order': repr(b.get(kk))}
+        return None
+    nd = len(docs)
+    # pairs for which two documents record different coefficients
+    contradictions = [{'pair': sorted('x%d' % m for m in pr_), 'documents': [t1, t2], 'coefficients': [records[t1][pr_], records[t2][pr_]]}
+                      for t1 in range(nd) for t2 in range(t1 + 1, nd) for pr_ in records[t1]
+                      if pr_ in records[t2] and records[t1][pr_] != records[t2][pr_]]
+    orders = [list(p) for p in itertools.permutations(range(nd))]
+    orders += [o + [o[0]] for o in orders[:2]]
     try:
-        r1 = load([('A', da), ('B', db)], k0 + 100)
-        r2 = load([('B', db), ('A', da)], k0 + 101)
-        r3 = load([('A', da), ('B', db), ('A', da)], k0 + 102)
+        ref_alive = observe(originals)
+        alive = load(list(range(nd)), None)                         # (b) the shared leaves are alive
+        results = [(o, load(o, k0 + 1 + i)) for i, o in enumerate(orders)]     # (a) fresh sessions
     except Exception as ex:
-        return {'kind': 'order-load-raises', 'exception': type(ex).__name__, 'k0': k0, 'later_correlation': later}
-    if r1 != r2 or r1 != r3:
-        return {'kind': 'load-overwrites-correlation' if later else 'order-dependence', 'k0': k0, 'later_correlation': later,
-                'differs': 'AB vs BA' if r1 != r2 else 'AB vs ABA'}
+        if any(f == 'xml' for f, _ in docs) and any(x.label == '' for x in xs): return None
+        return {'kind': 'order-load-raises', 'exception': '%s: %s' % (type(ex).__name__, ex), 'case_seed': case_seed, 'script': script}
+    d = differ(ref_alive, alive)
+    if d: return {'kind': 'reload-differs-from-live-numbers', 'case_seed': case_seed, 'script': script, 'difference': d}
+    for o, r in results[1:]:
+        d = differ(results[0][1], r)
+        if d: return {'kind': 'redeclared-correlation-order' if contradictions else 'order-dependence', 'case_seed': case_seed,
+                      'script': script, 'first_order': results[0][0], 'other_order': o, 'difference': d,
+                      'contradictions': contradictions}
+    if same_time:
+        # archives of one moment carry the complete correlation record of every leaf they hold: the covariances
+        # among all restored numbers are those of the original numbers
+        d = differ((ref_alive[0], ref_alive[1]), results[0][1])
+        if d and d['what'] == 'covariance':
+            return {'kind': 'restored-covariance-differs-from-original', 'case_seed': case_seed, 'script': script,
+                    'order': results[0][0], 'difference': d}
     return None
 
 def is_known(f):
-    return isinstance(f, dict) and f.get('kind') in KNOWN_KINDS
+    if not isinstance(f, dict) or f.get('kind') not in KNOWN_KINDS: return False
+    if f['kind'] == 'redeclared-correlation-order':
+        # precisely: an order dependence of a multi-archive case in which two documents record different
+        # coefficients for the same pair of leaves
+        c = f.get('contradictions')
+        return bool(c) and all(x['coefficients'][0] != x['coefficients'][1] for x in c)
+    return True
 
 def search(rng, tier, broken):
     n = 120 if tier == 'quick' else 1500
@@ -253,6 +331,12 @@ def search(rng, tier, broken):
         tried += 1
         f = run(k0, ops)
         if f: return {'tried': tried, 'failing': f, 'known_kinds_seen': known_seen}
+    for i in range(40 if tier == 'quick' else 400):     # load-order independence across archives written at different times
+        tried += 1
+        f = order_check(rng.randrange(10 ** 6))
+        if f:
+            if is_known(f): known_seen[f['kind']] = known_seen.get(f['kind'], 0) + 1
+            else: return {'tried': tried, 'failing': f, 'known_kinds_seen': known_seen}
     for st in arch.ROW_STATES:
         for op in arch.ROW_OPS:
             s, _ = arch.gen_row(31, st, op); ops = s.ops; s.close(); tried += 1
@@ -264,12 +348,6 @@ def search(rng, tier, broken):
         if any(o[0] == 'new' and o[1] <= k0 for o in ops): continue       # reused context ids: outside the property
         f = run(k0, ops)
         if f: return {'tried': tried, 'failing': f, 'known_kinds_seen': known_seen}
-        if i % 4 == 0:
-            tried += 1
-            f = order_check(rng, 300 + i)
-            if f:
-                if is_known(f): known_seen[f['kind']] = known_seen.get(f['kind'], 0) + 1
-                else: return {'tried': tried, 'failing': f, 'known_kinds_seen': known_seen}
     return {'tried': tried, 'failing': None, 'known_kinds_seen': known_seen}
 
 def replay(payload):
@@ -281,9 +359,11 @@ def replay(payload):
         print('replayed the failing history on the implementation:',
               'STILL FAILS: %s' % json.dumps(fails[0], default=str)[:1500] if fails else 'passes now')
         return 1 if fails else 0
-    if f and f.get('kind', '').startswith('order'):
-        r = order_check(random.Random(0), f['k0'])
-        print('order check:', r); return 1 if r and not is_known(r) else 0
+    if f and 'case_seed' in f:
+        r = order_check(f['case_seed'])
+        print('replayed the multi-archive load-order case %d on the implementation:' % f['case_seed'],
+              'STILL FAILS: %s' % json.dumps(r, default=str)[:1500] if r else 'passes now')
+        return 1 if r and not is_known(r) else 0
     return 0
 
 # ---------------------------------------------------------------- known findings (run on the implementation)
@@ -380,3 +460,19 @@ def kf_json_load_relists_complex():
     after = (w.real.df, w.imag.df)
     return (before != after and isinstance(z.real._node.complex, list)), \
         'w = z*z (z dependent ucomplex, df=5): (w.real.df, w.imag.df) before %r, after loads_json of an archive holding result(z*z): %r' % (before, after)
+
+def kf_redeclared_correlation_order():
+    core, pr = _fresh(903)
+    x0, x1, x2 = [core.ureal(float(i + 1), 0.5 + i / 8.0, independent=False) for i in range(3)]
+    core.set_correlation(-0.5, x2, x1); core.set_correlation(0.25, x2, x0)
+    a = pr.Archive(); a.add(x0=x0, x1=x1, x2=x2); d0 = pr.dumps_xml(a)             # archive 0
+    core.set_correlation(0.25, x2, x1); core.set_correlation(-0.25, x0, x1)         # r(x2,x1) RE-DECLARED
+    b = pr.Archive(); b.add(x1=x1, x2=x2); d1 = pr.dumps_json(b)                    # archive 1
+    def cov(first):
+        new_context(904 if first == 0 else 905)
+        if first == 0: a0 = pr.loads_xml(d0); a1 = pr.loads_json(d1)
+        else: a1 = pr.loads_json(d1); a0 = pr.loads_xml(d0)
+        return core.get_covariance(a0['x1'], a0['x2']), core.get_covariance(a1['x1'], a1['x2'])
+    c01, c10 = cov(0), cov(1)
+    return (c01 == (-0.234375, -0.234375) and c10 == (0.1171875, 0.1171875)), \
+        'fresh session, cov(x1,x2): reading archive 0 then 1 -> %r, reading 1 then 0 -> %r' % (c01[0], c10[0])
